@@ -1,8 +1,603 @@
-//! stub — to be written
-use crate::core::{Acc, Ctx};
-use serde_json::Value;
-pub const RULE: &str = "";
-pub const ASSUMPTIONS: &[&str] = &[];
-pub fn bounds(_quick: bool) -> Value { Value::Null }
-pub fn run(_ctx: &Ctx, _acc: &mut Acc) {}
-pub fn replay(_v: &Value) -> Option<(bool, String)> { None }
+//! C20 — cue sheet text import reproduces the layout the text describes.
+//! Shape G (bounded-exhaustive generation from a reference model).  The reference model is an abstract
+//! `Layout` (tracks, index numbers, absolute sector positions, flags, ISRCs, catalog, stream length)
+//! which this file renders to cue text itself, in every surface form the crate's grammar accepts; the
+//! expected block is computed from the layout with this file's own arithmetic
+//! (samples = ((mm*60+ss)*75+ff)*588) and compared with what `Cuesheet::parse` built.
+//!
+//! What the grammar accepts (read off src/metadata/mod.rs:3630-3733, the only documentation is the
+//! doc-example and tests/data/cuesheets/OK-*.cue): each line is `trim()`med (any leading / trailing
+//! white space, so any indentation, a trailing blank, the `\r` of CRLF), `str::lines()` accepts LF, CRLF
+//! and a missing final newline; keyword and first argument are separated by exactly ONE blank
+//! (`split_once(' ')`), so several inner blanks or an inner tab are *not* part of the accepted grammar and
+//! are not generated; CATALOG and ISRC arguments may be bare or enclosed in double quotes; every line with
+//! another keyword (REM, TITLE, PERFORMER, FILE, blank) is skipped.  A CD-DA sheet needs: first track number
+//! 1, consecutive track numbers, first index of the first track at 00:00:00, first index of a track numbered
+//! 00 or 01, consecutive index numbers, strictly increasing positions, lead-out beyond the last index,
+//! CATALOG of exactly 13 digits, FLAGS / ISRC before the track's first INDEX.  All generated texts satisfy
+//! these (they are what "well-formed" means for a single-file CD-DA sheet).
+use crate::core::{guarded, panic_loc, Acc, Ctx};
+use flac_codec::metadata::Cuesheet;
+use serde_json::{json, Value};
+
+pub const RULE: &str = "reference-model generation: abstract layout -> cue text (own renderer) -> Cuesheet::parse(588*total_sectors) -> compare every field with own arithmetic ((mm*60+ss)*75+ff)*588, then display() -> parse -> same track/index layout. Block P: EVERY layout with 1..3 tracks x per-track index shape {01; 01-02; 01-03; 00-01; 00-02} x every gap between consecutive positions and the final gap to the lead-out drawn from the tier's gap menu, first position 00:00:00, x attribute patterns (quick: FLAGS PRE on all/no tracks x ISRC on all/no tracks x CATALOG on/off, plus two alternating per-track patterns = 10; thorough: nothing / everything / the two alternating patterns = 4, the rest being subsumed by block A), canonical surface. Block A: every layout of block P over the quick gap menu (quick: <=2 tracks, thorough: <=3 tracks) x EVERY per-track assignment of FLAGS PRE / ISRC x CATALOG on/off. Block S: every track/index shape (<=3 tracks) x 10 attribute patterns x gap vectors (each menu value uniformly + cyclic mixes) x EVERY surface form: indentation {none, 2/4 blanks, tabs} x line ends {LF, CRLF, LF without final newline, CRLF without final newline} x CATALOG/ISRC {bare, quoted} x decoration {no other lines, FILE line, REM+TITLE+PERFORMER+FILE header and per-track TITLE/PERFORMER/REM/blank lines} x {FLAGS before ISRC, ISRC before FLAGS} x track numbers {zero padded, unpadded} x {no trailing blank, trailing blank on every line} = 576 forms. Block X (boundary singletons x 4 surfaces): 99 tracks (1 index each; mixed shapes), 99 and 100 indices in one track (first, second, all of three tracks), 99 tracks x 100 indices, minutes {99,100,101,255,256,999,1000,65535,65536,2^32,6*10^12} reached from mm-1:59:74, pre-gap on the first track, ISRC written with dashes, FLAGS lines carrying several flags";
+pub const ASSUMPTIONS: &[&str] = &[
+    "well-formed = what the crate's line grammar accepts: one blank between keyword and argument, keywords in upper case, one FILE, tracks numbered from 1, AUDIO tracks; inner multiple blanks / tabs, lower-case keywords, a byte-order mark and multi-FILE sheets are outside the accepted grammar and not generated",
+    "surface forms are crossed with every track/index shape and attribute pattern but only with uniform/cyclic gap vectors (block S); every gap combination is crossed with the canonical surface (block P): the parser tokenises each line independently of the others, so surface form and position arithmetic do not interact",
+    "beyond 3 tracks x 3 indices only the listed boundary singletons are run",
+    "the re-import comparison covers track numbers, track offsets, index numbers and index offsets (display() does not emit CATALOG / FLAGS / ISRC, and the property only claims the track and index layout)",
+];
+pub fn bounds(quick: bool) -> Value {
+    json!({
+        "tracks": "1..3 exhaustive, 99 as singletons",
+        "indices_per_track": "1..3 exhaustive (with and without pre-gap), 99 and 100 as singletons",
+        "gap_menu_sectors": if quick { json!(QUICK_GAPS) } else { json!(THOR_GAPS) },
+        "block_P_attribute_patterns": if quick { 10 } else { 4 },
+        "block_A": if quick { "<=2 tracks, gap menu [1,75,4500], all per-track PRE/ISRC assignments x CATALOG" } else { "<=3 tracks, gap menu [1,75,4500], all per-track PRE/ISRC assignments x CATALOG" },
+        "block_S_surface_forms": 576,
+        "block_S_gap_vectors": if quick { 4 } else { 7 },
+        "max_minutes": "6*10^12 (singleton); 900 in the exhaustive blocks of the thorough tier",
+    })
+}
+
+const QUICK_GAPS: [u64; 3] = [1, 75, 4500];
+const THOR_GAPS: [u64; 5] = [1, 74, 75, 4500, 450000];
+/// (has pre-gap, number of index points)
+const SHAPES: [(bool, usize); 5] = [(false, 1), (false, 2), (false, 3), (true, 2), (true, 3)];
+const CATALOG: &str = "0123456789012";
+
+// ---------------------------------------------------------------------------------------------
+// reference model
+
+#[derive(Clone, Debug, PartialEq)]
+struct Tr {
+    number: u8,
+    indices: Vec<(u8, u64)>, // (index number, absolute sector)
+    pre: bool,
+    isrc: Option<String>,
+}
+#[derive(Clone, Debug, PartialEq)]
+struct Layout {
+    tracks: Vec<Tr>,
+    catalog: Option<String>,
+    total: u64, // sectors
+}
+#[derive(Clone, Copy, Debug, PartialEq)]
+struct Surface {
+    indent: u8,    // 0 none, 1 blanks (2 for TRACK, 4 below), 2 tabs
+    eol: u8,       // 0 LF, 1 CRLF, 2 LF no final newline, 3 CRLF no final newline
+    quote: u8,     // 0 bare, 1 quoted (CATALOG and ISRC)
+    deco: u8,      // 0 nothing else, 1 FILE line, 2 REM/TITLE/PERFORMER/FILE header + per-track TITLE/PERFORMER/REM/blank
+    order: u8,     // 0 FLAGS then ISRC, 1 ISRC then FLAGS
+    pad: u8,       // 0 "TRACK 01", 1 "TRACK 1"
+    trail: u8,     // 1 = trailing blank on every line
+    flags: u8,     // 0 "FLAGS PRE"; 1 "FLAGS DCP PRE"; 2 "FLAGS PRE DCP"; 3 as 0 and tracks without PRE carry "FLAGS DCP 4CH"
+    isrc_dash: u8, // 1 = ISRC written CC-XXX-YY-NNNNN
+}
+const CANON: Surface = Surface { indent: 1, eol: 0, quote: 0, deco: 1, order: 0, pad: 0, trail: 0, flags: 0, isrc_dash: 0 };
+const N_SURF: u64 = 3 * 4 * 2 * 3 * 2 * 2 * 2;
+fn surface_from(mut i: u64) -> Surface {
+    let mut d = |n: u64| {
+        let r = (i % n) as u8;
+        i /= n;
+        r
+    };
+    Surface { indent: d(3), eol: d(4), quote: d(2), deco: d(3), order: d(2), pad: d(2), trail: d(2), flags: 0, isrc_dash: 0 }
+}
+
+fn isrc_for(k: usize) -> String {
+    // 2 letters, 3 alphanumerics, 2-digit year, 5-digit designation
+    format!("GBAY7{:02}{:05}", 10 + k % 90, (k * 137) % 100000)
+}
+
+fn msf(sector: u64) -> (u64, u64, u64) {
+    (sector / 4500, (sector / 75) % 60, sector % 75)
+}
+fn msf_text(sector: u64) -> String {
+    let (m, s, f) = msf(sector);
+    format!("{m:02}:{s:02}:{f:02}")
+}
+/// the property's arithmetic, on the numbers that are written in the text
+fn samples_of(sector: u64) -> u64 {
+    let (m, s, f) = msf(sector);
+    let v = ((m as u128 * 60 + s as u128) * 75 + f as u128) * 588;
+    assert!(v <= u64::MAX as u128 && v == sector as u128 * 588, "machinery: layout beyond u64 samples");
+    v as u64
+}
+
+fn render(l: &Layout, s: &Surface) -> String {
+    let mut lines: Vec<String> = Vec::new();
+    let (i1, i2) = match s.indent {
+        0 => ("", ""),
+        1 => ("  ", "    "),
+        _ => ("\t", "\t\t"),
+    };
+    let q = |v: &str| if s.quote == 1 { format!("\"{v}\"") } else { v.to_string() };
+    if s.deco == 2 {
+        lines.push("REM GENRE Test".into());
+        lines.push("REM COMMENT \"INDEX 01 00:00:00\"".into());
+    }
+    if let Some(c) = &l.catalog {
+        lines.push(format!("CATALOG {}", q(c)));
+    }
+    if s.deco == 2 {
+        lines.push("PERFORMER \"The Performer\"".into());
+        lines.push("TITLE \"The Album\"".into());
+    }
+    if s.deco >= 1 {
+        lines.push("FILE \"cdimage.wav\" WAVE".into());
+    }
+    for t in &l.tracks {
+        if s.pad == 0 {
+            lines.push(format!("{i1}TRACK {:02} AUDIO", t.number));
+        } else {
+            lines.push(format!("{i1}TRACK {} AUDIO", t.number));
+        }
+        if s.deco == 2 {
+            lines.push(format!("{i2}TITLE \"Song {}\"", t.number));
+            lines.push(format!("{i2}PERFORMER \"TRACK {} AUDIO\"", t.number));
+        }
+        let flags = if t.pre {
+            Some(match s.flags {
+                1 => "FLAGS DCP PRE",
+                2 => "FLAGS PRE DCP",
+                _ => "FLAGS PRE",
+            })
+        } else if s.flags == 3 {
+            Some("FLAGS DCP 4CH")
+        } else {
+            None
+        };
+        let isrc = t.isrc.as_ref().map(|v| {
+            let v = if s.isrc_dash == 1 && v.len() == 12 { format!("{}-{}-{}-{}", &v[0..2], &v[2..5], &v[5..7], &v[7..12]) } else { v.clone() };
+            format!("{i2}ISRC {}", q(&v))
+        });
+        let flags = flags.map(|f| format!("{i2}{f}"));
+        if s.order == 0 {
+            lines.extend(flags);
+            lines.extend(isrc);
+        } else {
+            lines.extend(isrc);
+            lines.extend(flags);
+        }
+        for (k, (n, sec)) in t.indices.iter().enumerate() {
+            lines.push(format!("{i2}INDEX {:02} {}", n, msf_text(*sec)));
+            if s.deco == 2 && k == 0 {
+                lines.push(format!("{i2}REM after index {n:02}"));
+            }
+        }
+        if s.deco == 2 {
+            lines.push(String::new());
+        }
+    }
+    let (nl, fin) = match s.eol {
+        0 => ("\n", true),
+        1 => ("\r\n", true),
+        2 => ("\n", false),
+        _ => ("\r\n", false),
+    };
+    if !fin {
+        // a text "without final newline" must end in its last meaningful line
+        while lines.last().is_some_and(|x| x.is_empty()) {
+            lines.pop();
+        }
+    }
+    let mut out = String::new();
+    for (k, line) in lines.iter().enumerate() {
+        out.push_str(line);
+        if s.trail == 1 {
+            out.push(' ');
+        }
+        if fin || k + 1 < lines.len() {
+            out.push_str(nl);
+        }
+    }
+    out
+}
+
+// ---------------------------------------------------------------------------------------------
+// oracle
+
+type Obs = Vec<(Option<u8>, u64, Vec<(u8, u64)>)>; // (number, offset, [(index number, relative offset)])
+fn observe(c: &Cuesheet) -> Obs {
+    c.tracks().map(|t| (t.number, t.offset, t.index_points.iter().map(|i| (i.number, i.offset)).collect())).collect()
+}
+
+/// Err((signature tail "<clause>|<detail-class>", human text))
+fn check(l: &Layout, s: &Surface) -> Result<(), (String, String)> {
+    let text = render(l, s);
+    let total_samples = samples_of(l.total);
+    let first = match guarded(|| Cuesheet::parse(total_samples, &text)) {
+        Err(p) => return Err((format!("import|panic@{}", panic_loc(&p)), format!("Cuesheet::parse panics: {p}"))),
+        Ok(Err(e)) => return Err((format!("import|rejected-{e:?}"), format!("well-formed text is rejected with {e:?} ({e})"))),
+        Ok(Ok(c)) => c,
+    };
+    let r = guarded(|| -> Result<(), (String, String)> {
+        let c = &first;
+        if !c.is_cdda() {
+            return Err(("import|not-cdda".into(), "stream length is a whole number of sectors but the block is not CD-DA".into()));
+        }
+        if c.track_count() != l.tracks.len() + 1 {
+            return Err(("track-count|wrong".into(), format!("track_count() = {}, text has {} tracks + lead-out", c.track_count(), l.tracks.len())));
+        }
+        let got: Vec<_> = c.tracks().collect();
+        if got.len() != l.tracks.len() + 1 {
+            return Err(("track-count|tracks-iterator".into(), format!("tracks() yields {} items, text has {} tracks + lead-out", got.len(), l.tracks.len())));
+        }
+        for (g, w) in got.iter().zip(&l.tracks) {
+            let pg = if w.indices[0].0 == 0 { "pregap" } else { "nopregap" };
+            if g.number != Some(w.number) {
+                return Err(("track-number|wrong".into(), format!("track number {:?}, text says {}", g.number, w.number)));
+            }
+            if g.non_audio {
+                return Err(("track-mode|audio-reported-non-audio".into(), format!("track {} is AUDIO in the text, non_audio in the block", w.number)));
+            }
+            if g.index_points.len() != w.indices.len() {
+                return Err((format!("index-count|{pg}"), format!("track {}: {} index points, text has {}", w.number, g.index_points.len(), w.indices.len())));
+            }
+            if g.offset != samples_of(w.indices[0].1) {
+                return Err((format!("track-offset|{pg}"), format!("track {}: offset {} but its first index is at {} = sample {}", w.number, g.offset, msf_text(w.indices[0].1), samples_of(w.indices[0].1))));
+            }
+            for (gi, (n, sec)) in g.index_points.iter().zip(&w.indices) {
+                if gi.number != *n {
+                    return Err((format!("index-number|{pg}"), format!("track {}: index number {}, text says {:02}", w.number, gi.number, n)));
+                }
+                let abs = g.offset.checked_add(gi.offset);
+                if abs != Some(samples_of(*sec)) {
+                    return Err((format!("index-position|{pg}"), format!("track {} INDEX {:02} {}: absolute position {:?} (track {} + index {}), expected {}", w.number, n, msf_text(*sec), abs, g.offset, gi.offset, samples_of(*sec))));
+                }
+            }
+            if g.pre_emphasis != w.pre {
+                let class = match (s.flags, w.pre) {
+                    (0, _) => "single-flag-line",
+                    (3, false) => "other-flags-line",
+                    (3, true) => "single-flag-line",
+                    _ => "multi-flag-line",
+                };
+                return Err((format!("pre-emphasis|{class}"), format!("track {}: pre_emphasis {} in the block, text {}", w.number, g.pre_emphasis, if w.pre { "has the PRE flag" } else { "has no PRE flag" })));
+            }
+            let gi: &str = g.isrc.as_ref();
+            if gi != w.isrc.as_deref().unwrap_or("") {
+                return Err((format!("isrc|{}", if s.isrc_dash == 1 { "dashed" } else { "plain" }), format!("track {}: ISRC {:?} in the block, {:?} in the text", w.number, gi, w.isrc)));
+            }
+        }
+        let lo = got.last().unwrap();
+        if lo.number.is_some() || lo.offset != total_samples || !lo.index_points.is_empty() {
+            return Err(("lead-out|wrong".into(), format!("lead-out number {:?} offset {} with {} index points; stream length is {}", lo.number, lo.offset, lo.index_points.len(), total_samples)));
+        }
+        let cat = c.catalog_number().to_string();
+        if cat != l.catalog.as_deref().unwrap_or("") {
+            return Err(("catalog|wrong".into(), format!("catalog number {:?}, text says {:?}", cat, l.catalog)));
+        }
+        // ranges: index 01 of each track to index 01 of the next, the last one to the lead-out
+        let starts: Vec<u64> = l.tracks.iter().map(|t| samples_of(t.indices.iter().find(|(n, _)| *n == 1).unwrap().1)).chain(std::iter::once(total_samples)).collect();
+        let want: Vec<std::ops::Range<u64>> = starts.windows(2).map(|w| w[0]..w[1]).collect();
+        let ranges: Vec<std::ops::Range<u64>> = c.track_sample_ranges().collect();
+        if ranges != want {
+            let pg = if l.tracks.iter().any(|t| t.indices[0].0 == 0) { "pregap" } else { "nopregap" };
+            return Err((format!("track-ranges|{pg}"), format!("track_sample_ranges() = {ranges:?}, expected {want:?}")));
+        }
+        // export and re-import
+        let exported = c.display("x.flac").to_string();
+        match Cuesheet::parse(total_samples, &exported) {
+            Err(e) => Err((format!("reimport|rejected-{e:?}"), format!("the exported text is rejected with {e:?}: {:?}", clip(&exported, 400)))),
+            Ok(c2) => {
+                let (a, b) = (observe(c), observe(&c2));
+                if a != b || c2.is_cdda() != c.is_cdda() {
+                    let at = a.iter().zip(&b).position(|(x, y)| x != y);
+                    Err(("reimport|layout-differs".into(), format!("re-imported layout differs at track slot {at:?}: imported {:?} / re-imported {:?}; exported text {:?}", at.map(|i| &a[i]), at.map(|i| &b[i]), clip(&exported, 400))))
+                } else {
+                    Ok(())
+                }
+            }
+        }
+    });
+    match r {
+        Ok(x) => x,
+        Err(p) => Err((format!("accessor|panic@{}", panic_loc(&p)), format!("accessor / display / re-import panics: {p}"))),
+    }
+}
+
+fn clip(s: &str, n: usize) -> String {
+    if s.len() <= n {
+        s.to_string()
+    } else {
+        let mut e = n;
+        while !s.is_char_boundary(e) {
+            e -= 1;
+        }
+        format!("{}… ({} bytes)", &s[..e], s.len())
+    }
+}
+
+// ---------------------------------------------------------------------------------------------
+// JSON (replayable case)
+
+fn layout_json(l: &Layout) -> Value {
+    json!({
+        "tracks": l.tracks.iter().map(|t| json!({"n": t.number, "idx": t.indices.iter().map(|(n, s)| json!([n, s])).collect::<Vec<_>>(), "pre": t.pre, "isrc": t.isrc})).collect::<Vec<_>>(),
+        "catalog": l.catalog, "total": l.total,
+    })
+}
+fn layout_from(v: &Value) -> Option<Layout> {
+    let mut tracks = Vec::new();
+    for t in v["tracks"].as_array()? {
+        let mut indices = Vec::new();
+        for i in t["idx"].as_array()? {
+            indices.push((i[0].as_u64()? as u8, i[1].as_u64()?));
+        }
+        tracks.push(Tr { number: t["n"].as_u64()? as u8, indices, pre: t["pre"].as_bool()?, isrc: t["isrc"].as_str().map(|s| s.to_string()) });
+    }
+    Some(Layout { tracks, catalog: v["catalog"].as_str().map(|s| s.to_string()), total: v["total"].as_u64()? })
+}
+fn surface_json(s: &Surface) -> Value {
+    json!([s.indent, s.eol, s.quote, s.deco, s.order, s.pad, s.trail, s.flags, s.isrc_dash])
+}
+fn surface_from_json(v: &Value) -> Option<Surface> {
+    let a: Vec<u8> = v.as_array()?.iter().map(|x| x.as_u64().unwrap_or(0) as u8).collect();
+    if a.len() != 9 {
+        return None;
+    }
+    Some(Surface { indent: a[0], eol: a[1], quote: a[2], deco: a[3], order: a[4], pad: a[5], trail: a[6], flags: a[7], isrc_dash: a[8] })
+}
+fn case_json(l: &Layout, s: &Surface) -> Value {
+    json!({"kind": "cue-layout", "layout": layout_json(l), "surface": surface_json(s), "stream_samples": samples_of(l.total), "text": clip(&render(l, s), 1500)})
+}
+
+// ---------------------------------------------------------------------------------------------
+// generators
+
+/// positions: first at sector 0, then `gaps[k]` between consecutive positions, last gap to the lead-out
+fn build(shapes: &[usize], gaps: &[u64], pre: &[bool], isrc: &[bool], cat: bool) -> Layout {
+    let mut pos = 0u64;
+    let mut k = 0usize;
+    let mut first = true;
+    let mut tracks = Vec::with_capacity(shapes.len());
+    for (ti, &sh) in shapes.iter().enumerate() {
+        let (pregap, n) = SHAPES[sh];
+        let mut indices = Vec::with_capacity(n);
+        for j in 0..n {
+            if !first {
+                pos += gaps[k % gaps.len()];
+                k += 1;
+            }
+            first = false;
+            let num = if pregap { j } else { j + 1 };
+            indices.push((num as u8, pos));
+        }
+        tracks.push(Tr { number: (ti + 1) as u8, indices, pre: pre[ti % pre.len()], isrc: isrc[ti % isrc.len()].then(|| isrc_for(ti + 1)) });
+    }
+    let total = pos + gaps[k % gaps.len()];
+    Layout { tracks, catalog: cat.then(|| CATALOG.to_string()), total }
+}
+
+/// the 10 attribute patterns of blocks P and S: (pre per track, isrc per track, catalog)
+fn pattern(p: usize) -> ([bool; 2], [bool; 2], bool) {
+    match p {
+        0..=7 => ([p & 1 != 0; 2], [p & 2 != 0; 2], p & 4 != 0),
+        8 => ([true, false], [false, true], true), // PRE on odd tracks, ISRC on even tracks
+        _ => ([false, true], [true, false], false),
+    }
+}
+
+fn npos(shapes: &[usize]) -> usize {
+    shapes.iter().map(|&s| SHAPES[s].1).sum()
+}
+fn decode_shapes(mut i: u64, t: usize) -> Vec<usize> {
+    (0..t)
+        .map(|_| {
+            let r = (i % 5) as usize;
+            i /= 5;
+            r
+        })
+        .collect()
+}
+fn decode_gaps(mut i: u64, n: usize, menu: &[u64]) -> Vec<u64> {
+    (0..n)
+        .map(|_| {
+            let r = menu[(i % menu.len() as u64) as usize];
+            i /= menu.len() as u64;
+            r
+        })
+        .collect()
+}
+
+fn exec(acc: &mut Acc, block: &str, l: &Layout, s: &Surface) -> bool {
+    acc.states += 1;
+    acc.executions += 1;
+    let np: u64 = l.tracks.iter().map(|t| t.indices.len() as u64).sum();
+    acc.transitions += 2 * (np + l.tracks.len() as u64) + 4; // lines imported, lines re-imported, accessors
+    let pg = l.tracks.iter().filter(|t| t.indices[0].0 == 0).count().min(4);
+    let mm = if l.total > 100 * 4500 { "mm>=100" } else if l.total > 4500 { "mm<100" } else { "mm<1" };
+    let tcls = if l.tracks.len() <= 3 { format!("t{}", l.tracks.len()) } else { "t>3".into() };
+    let ok = match check(l, s) {
+        Ok(()) => {
+            acc.outcome(format!("{block}:ok:{tcls}:pregaps{pg}:{mm}"));
+            true
+        }
+        Err((tail, what)) => {
+            acc.outcome(format!("{block}:bad:{}", tail.split('|').next().unwrap_or("?")));
+            acc.violation(format!("C20|{tail}"), format!("{what}; text: {:?}", clip(&render(l, s), 300)), case_json(l, s));
+            false
+        }
+    };
+    if acc.states % 50000 == 1 {
+        acc.sample(case_json(l, s));
+    }
+    ok
+}
+
+fn singletons() -> Vec<(&'static str, Layout, Surface)> {
+    let surfaces = [
+        CANON,
+        Surface { indent: 2, eol: 1, quote: 1, deco: 2, order: 1, pad: 1, trail: 1, flags: 0, isrc_dash: 0 },
+        Surface { indent: 0, eol: 2, quote: 0, deco: 0, order: 0, pad: 0, trail: 0, flags: 0, isrc_dash: 0 },
+        Surface { indent: 1, eol: 3, quote: 1, deco: 2, order: 0, pad: 0, trail: 0, flags: 0, isrc_dash: 0 },
+    ];
+    let mut v: Vec<(&'static str, Layout)> = Vec::new();
+    let cyc: Vec<u64> = vec![1, 4500, 74, 75, 450000, 1, 75];
+    // a track with `n` indices starting at number `first`, appended at the running position
+    fn chain(specs: &[(u8, usize)], gaps: &[u64], pre: bool, isrc: bool, cat: bool) -> Layout {
+        let mut pos = 0u64;
+        let mut k = 0usize;
+        let mut started = false;
+        let mut tracks = Vec::new();
+        for (ti, &(first, n)) in specs.iter().enumerate() {
+            let mut indices = Vec::new();
+            for j in 0..n {
+                if started {
+                    pos += gaps[k % gaps.len()];
+                    k += 1;
+                }
+                started = true;
+                indices.push((first + j as u8, pos));
+            }
+            tracks.push(Tr { number: (ti + 1) as u8, indices, pre: pre && ti % 2 == 0, isrc: isrc.then(|| isrc_for(ti + 1)) });
+        }
+        Layout { tracks, catalog: cat.then(|| CATALOG.to_string()), total: pos + gaps[k % gaps.len()] }
+    }
+    v.push(("99-tracks-1-index", chain(&[(1, 1); 99], &cyc, true, true, true)));
+    v.push(("99-tracks-1-index-gap1", chain(&[(1, 1); 99], &[1], false, false, false)));
+    let mixed: Vec<(u8, usize)> = (0..99).map(|i| [(1u8, 1usize), (0, 2), (1, 3), (0, 3), (1, 2)][i % 5]).collect();
+    v.push(("99-tracks-mixed-shapes", chain(&mixed, &cyc, true, true, true)));
+    v.push(("1-track-99-indices", chain(&[(1, 99)], &cyc, false, true, false)));
+    v.push(("1-track-100-indices", chain(&[(0, 100)], &cyc, true, false, true)));
+    v.push(("1-track-100-indices-gap1", chain(&[(0, 100)], &[1], false, false, false)));
+    v.push(("2-tracks-second-100-indices", chain(&[(1, 1), (0, 100)], &cyc, true, true, true)));
+    v.push(("2-tracks-second-99-indices", chain(&[(0, 2), (1, 99)], &cyc, false, false, true)));
+    v.push(("3-tracks-100-99-100-indices", chain(&[(0, 100), (1, 99), (0, 100)], &cyc, true, true, false)));
+    v.push(("99-tracks-100-indices", chain(&[(0, 100); 99], &cyc, true, true, true)));
+    v.push(("99-tracks-100-indices-gap1", chain(&[(0, 100); 99], &[1], false, false, false)));
+    v.push(("first-track-pregap-2s", chain(&[(0, 2), (0, 2), (1, 1)], &[150, 4500 * 3, 150, 4500 * 4, 4500 * 5], true, true, true)));
+    for (name, m) in [
+        ("minute-99", 99u64),
+        ("minute-100", 100),
+        ("minute-101", 101),
+        ("minute-255", 255),
+        ("minute-256", 256),
+        ("minute-999", 999),
+        ("minute-1000", 1000),
+        ("minute-65535", 65535),
+        ("minute-65536", 65536),
+        ("minute-2^32", 1 << 32),
+        ("minute-6e12", 6_000_000_000_000),
+    ] {
+        // track 1: 01 @ 00:00:00, 02 @ (m-1):59:74 ; track 2: 00 @ m:00:00, 01 @ m:02:00 ; lead-out @ (m+1):02:00
+        let l = Layout {
+            tracks: vec![
+                Tr { number: 1, indices: vec![(1, 0), (2, m * 4500 - 1)], pre: false, isrc: None },
+                Tr { number: 2, indices: vec![(0, m * 4500), (1, m * 4500 + 150)], pre: true, isrc: Some(isrc_for(2)) },
+            ],
+            catalog: Some(CATALOG.into()),
+            total: m * 4500 + 150 + 4500,
+        };
+        v.push((name, l));
+    }
+    let mut out: Vec<(&'static str, Layout, Surface)> = Vec::new();
+    for (name, l) in v {
+        for s in surfaces {
+            out.push((name, l.clone(), s));
+        }
+    }
+    // spelling variants of single lines
+    let base = build(&[3, 1, 0], &[150, 4500, 75, 1, 4500], &[true, false], &[true], true);
+    out.push(("isrc-with-dashes-quoted", base.clone(), Surface { quote: 1, isrc_dash: 1, ..CANON }));
+    out.push(("isrc-with-dashes-bare", base, Surface { quote: 0, isrc_dash: 1, ..CANON }));
+    // smallest layout for the FLAGS spellings: track 1 carries PRE, track 2 does not
+    let small = build(&[0, 0], &[4500], &[true, false], &[false], false);
+    out.push(("flags-line-without-pre", small.clone(), Surface { flags: 3, deco: 0, ..CANON }));
+    out.push(("flags-dcp-pre", small.clone(), Surface { flags: 1, deco: 0, ..CANON }));
+    out.push(("flags-pre-dcp", small, Surface { flags: 2, deco: 0, ..CANON }));
+    out
+}
+
+pub fn run(ctx: &Ctx, acc: &mut Acc) {
+    let menu: &[u64] = if ctx.quick { &QUICK_GAPS } else { &THOR_GAPS };
+    // ---- block P: every position layout x attribute patterns, canonical surface.
+    // quick: all 10 patterns; thorough (5-value menu, 28.5 M layouts): none / all / the two alternating patterns -
+    // the other six all-or-nothing combinations are subsumed by block A, which in the thorough tier covers
+    // every per-track assignment for <=3 tracks.
+    let pats: &[usize] = if ctx.quick { &[0, 1, 2, 3, 4, 5, 6, 7, 8, 9] } else { &[0, 7, 8, 9] };
+    for t in 1..=3usize {
+        for sh in 0..5u64.pow(t as u32) {
+            let shapes = decode_shapes(sh, t);
+            let n = npos(&shapes);
+            let combos = (menu.len() as u64).pow(n as u32);
+            for g in 0..combos {
+                for &p in pats {
+                    if !ctx.mine() {
+                        continue;
+                    }
+                    let gaps = decode_gaps(g, n, menu);
+                    let (pre, isrc, cat) = pattern(p);
+                    let l = build(&shapes, &gaps, &pre, &isrc, cat);
+                    exec(acc, "P", &l, &CANON);
+                }
+            }
+        }
+    }
+    // ---- block A: every per-track attribute assignment (quick gap menu)
+    let tmax = if ctx.quick { 2 } else { 3 };
+    for t in 1..=tmax {
+        for sh in 0..5u64.pow(t as u32) {
+            let shapes = decode_shapes(sh, t);
+            let n = npos(&shapes);
+            let combos = (QUICK_GAPS.len() as u64).pow(n as u32);
+            for g in 0..combos {
+                for a in 0..(1u64 << (2 * t + 1)) {
+                    if !ctx.mine() {
+                        continue;
+                    }
+                    let gaps = decode_gaps(g, n, &QUICK_GAPS);
+                    let pre: Vec<bool> = (0..t).map(|i| a >> (2 * i) & 1 != 0).collect();
+                    let isrc: Vec<bool> = (0..t).map(|i| a >> (2 * i + 1) & 1 != 0).collect();
+                    let l = build(&shapes, &gaps, &pre, &isrc, a >> (2 * t) & 1 != 0);
+                    exec(acc, "A", &l, &CANON);
+                }
+            }
+        }
+    }
+    // ---- block S: every shape x attribute pattern x gap vector x every surface form
+    let mut gapvecs: Vec<Vec<u64>> = menu.iter().map(|&g| vec![g]).collect();
+    gapvecs.push(menu.to_vec());
+    if ctx.thorough() {
+        let mut r = menu.to_vec();
+        r.reverse();
+        gapvecs.push(r);
+    }
+    for t in 1..=3usize {
+        for sh in 0..5u64.pow(t as u32) {
+            let shapes = decode_shapes(sh, t);
+            for gv in &gapvecs {
+                for p in 0..10usize {
+                    for sf in 0..N_SURF {
+                        if !ctx.mine() {
+                            continue;
+                        }
+                        let (pre, isrc, cat) = pattern(p);
+                        let l = build(&shapes, gv, &pre, &isrc, cat);
+                        exec(acc, "S", &l, &surface_from(sf));
+                    }
+                }
+            }
+        }
+    }
+    // ---- block X: boundary singletons
+    for (name, l, s) in singletons() {
+        if !ctx.mine() {
+            continue;
+        }
+        let ok = exec(acc, "X", &l, &s);
+        acc.outcome(format!("X:{name}:{}", if ok { "holds" } else { "violated" }));
+    }
+}
+
+pub fn replay(v: &Value) -> Option<(bool, String)> {
+    if v["kind"].as_str()? != "cue-layout" {
+        return None;
+    }
+    let l = layout_from(&v["layout"])?;
+    let s = surface_from_json(&v["surface"])?;
+    let r = check(&l, &s);
+    Some((r.is_err(), format!("{r:?}")))
+}
